@@ -97,8 +97,10 @@ impl LocalSpan {
     {
         #[cfg(feature = "enable")]
         if let Some(LocalSpanInner { stack, span_handle }) = &self.inner {
+            // Evaluate the closure before borrowing the stack: it may itself use local spans.
+            let properties: Vec<(K, V)> = properties().into_iter().collect();
             let span_stack = &mut *stack.borrow_mut();
-            span_stack.with_properties(span_handle, properties);
+            span_stack.with_properties(span_handle, || properties);
         }
 
         self
@@ -150,8 +152,14 @@ impl LocalSpan {
         {
             LOCAL_SPAN_STACK
                 .try_with(|s| {
-                    let span_stack = &mut s.borrow_mut();
-                    span_stack.add_properties(properties);
+                    let is_recording = s.borrow_mut().is_recording();
+                    if is_recording {
+                        // Evaluate the closure before borrowing the stack: it may itself use
+                        // local spans.
+                        let properties: Vec<(K, V)> = properties().into_iter().collect();
+                        let span_stack = &mut s.borrow_mut();
+                        span_stack.add_properties(|| properties);
+                    }
                     Some(())
                 })
                 .ok();
